@@ -20,11 +20,12 @@ def sideOf? : String → Option Side | "A" => some .A | "B" => some .B | _ => no
 def linkStep (l : LSt) (w : List String) : LSt × String :=
   let run (e : LEv) : LSt × String := let (l', st) := lstep l e; (l', renderLink l' st)
   match w with
-  | "cfg" :: bs :: chunkA :: chunkB :: hb :: _ =>
+  | "cfg" :: bs :: chunkA :: chunkB :: hb :: rest =>
     (match bs.toNat?, chunkA.toNat?, chunkB.toNat?, hb.toInt? with
      | some bs, some ca, some cb, some hb =>
        let mk (ini : Bool) (snd tgt : String) (chunk : Nat) : Cfg :=
-         { initiator := ini, bs := bs, sender := snd, target := tgt, chunk := chunk, hb := hb, applVer := if bs == 5 then "9" else "" }
+         { initiator := ini, bs := bs, sender := snd, target := tgt, chunk := chunk, hb := hb, applVer := if bs == 5 then "9" else "",
+           nextExpected := rest.contains "nx=1" }
        let l' := linkInit (mk true "A" "B" ca) (mk false "B" "A" cb)
        (l', renderLink l' "ok")
      | _, _, _, _ => (l, "bad-op"))
